@@ -848,7 +848,7 @@ class C12(L1Prop):
         # the real executable: the targets given by flag / environment variable are the ones the urgency is
         # computed from
         for j, (vsrc, ysrc, d, v) in enumerate([("flag:2", "default", 14, 2), ("env:3", "flag:1", 1, 3), ("both:1/9", "env:2", 2, 1), ("flag:0", "flag:0", 0, 0)][:sizes(tier, 3, 4)]):
-            ops = [f"boot listen=flag:1 dir=flag allow=none versions={vsrc} days={ysrc} log={['debug', 'trace', 'error', 'debug'][j % 4]}", "http@0 POST av hyph=nil hyph=1 history b:1",
+            ops = [f"boot listen=flag:1 dir=flag allow=none versions={vsrc} days={ysrc} log={['debug', 'trace', 'error', 'debug'][j % 4]}{' extra=auto:flag' if j == 1 else ''}", "http@0 POST av hyph=nil hyph=1 history b:1",
                    "http@0 POST av hyph=latest:1 hyph=1 history b:2", "http@0 POST as hyph=latest:1 hyph=1 snapshot b:9"]
             for i in range(5):
                 ops += ["dump 1", f"http@0 POST av hyph=latest:1 hyph=1 history b:3,{i}", "dump 1"]
